@@ -551,3 +551,102 @@ pub fn pattern_faults(text: &str, rng: &mut Rng) -> Vec<(&'static str, String)> 
   }
   out
 }
+
+// ---------------------------------------------------------------------------------------------
+// order zoo: constructs whose lowering walks sets / maps of names — closures capturing `this`
+// plus one to five other variables (parameters and locals, ints and strings, nested lambdas),
+// classes with many members reached through an interface. Every value is printed with a positional
+// weight, so that two captured variables swapping places changes the output.
+
+pub fn order_zoo(rng: &mut Rng) -> String {
+  let pool = ["alpha", "beta", "gamma", "delta", "eps", "zeta", "eta", "theta", "iota", "kappa", "lam", "mu", "nu", "xi", "omi", "pi", "rho", "sigma"];
+  let mut methods = String::new();
+  let mut calls = String::new();
+  let nm = 4 + rng.below(6);
+  for m in 0..nm {
+    let k = 1 + rng.below(5);
+    let mut names: Vec<&str> = pool.to_vec();
+    rng.shuffle(&mut names);
+    names.truncate(k);
+    let as_locals = rng.chance(1, 3);
+    let with_str = rng.chance(1, 3);
+    let nested = rng.chance(1, 4);
+    // the weighted sum mentions the captured names in a random order
+    let mut terms: Vec<String> = names.iter().enumerate().map(|(i, n)| format!("{n} * {}", 10i64.pow((k - i) as u32))).collect();
+    terms.push(format!("this.base * {}", 10i64.pow((k + 1) as u32)));
+    rng.shuffle(&mut terms);
+    let sum = format!("{} + x", terms.join(" + "));
+    let params: String = names.iter().map(|n| format!("{n}: int")).collect::<Vec<_>>().join(", ");
+    let args: String = (0..k).map(|i| format!("{}", i + 1)).collect::<Vec<_>>().join(", ");
+    if as_locals {
+      let lets: String = names.iter().enumerate().map(|(i, n)| format!("let {n} = seed + {i}; ")).collect();
+      methods.push_str(&format!("  method m{m}(seed: int): (int) -> int = {{ {lets}(x) -> {sum} }}\n"));
+      calls.push_str(&format!("    Process.println(\"m{m}=\" :: Str.fromInt(acc.m{m}(1)(0)));\n"));
+    } else if with_str {
+      methods.push_str(&format!("  method m{m}({params}, label: Str): (int) -> Str = (x) -> this.tag :: label :: Str.fromInt({sum})\n"));
+      calls.push_str(&format!("    Process.println(\"m{m}=\" :: acc.m{m}({args}, \"L{m}:\")(0));\n"));
+    } else if nested {
+      methods.push_str(&format!("  method m{m}({params}): (int) -> (int) -> int = (x) -> (y) -> ({sum}) * 10 + y + this.base\n"));
+      calls.push_str(&format!("    Process.println(\"m{m}=\" :: Str.fromInt(acc.m{m}({args})(0)(7)));\n"));
+    } else {
+      methods.push_str(&format!("  method m{m}({params}): (int) -> int = (x) -> {sum}\n"));
+      calls.push_str(&format!("    Process.println(\"m{m}=\" :: Str.fromInt(acc.m{m}({args})(0)));\n"));
+    }
+  }
+  // many members reached through an interface
+  let ns = 3 + rng.below(4);
+  let mut shapes = String::new();
+  let mut uses = String::new();
+  let mut members = vec!["area", "sides", "weight", "code"];
+  rng.shuffle(&mut members);
+  let decl: String = members.iter().map(|m| format!("  method {m}(): int\n")).collect();
+  for s in 0..ns {
+    let mut order = members.clone();
+    rng.shuffle(&mut order);
+    let impls: String = order.iter().map(|m| format!("  method {m}(): int = this.v * {} + {}\n", 2 + s, members.iter().position(|x| x == m).unwrap())).collect();
+    shapes.push_str(&format!("class S{s}(val v: int) : Shape {{\n{impls}}}\n"));
+    uses.push_str(&format!("    Process.println(\"s{s}=\" :: Str.fromInt(Main.total(S{s}.init({}))));\n", s + 3));
+  }
+  format!(
+    "interface Shape {{\n{decl}}}\n{shapes}class Acc(val base: int, val tag: Str) {{\n{methods}}}\nclass Main {{\n  function <T: Shape> total(t: T): int = t.{}() * 1000 + t.{}() * 100 + t.{}() * 10 + t.{}()\n  function main(): unit = {{\n    let acc = Acc.init(9, \"t:\");\n{calls}{uses}  }}\n}}\n",
+    members[0], members[1], members[2], members[3]
+  )
+}
+
+// ---------------------------------------------------------------------------------------------
+// generic zoo: bounded generic classes and functions in every shape — a bound that refers to the
+// parameter itself, to an earlier parameter, to a LATER parameter, nested bounds — with values
+// built by inference only, so that the "make the inferred type explicit" rewrites have every kind
+// of instantiated type to write down.
+
+pub fn generic_zoo(rng: &mut Rng) -> String {
+  let mut classes = vec![
+    // forward reference: the bound of A mentions B, declared after it
+    "class Fwd<A: Into<B>, B>(val a: A, val b: B) {\n  method run(): B = this.a.into()\n}\n",
+    // backward reference
+    "class Bwd<A, B: Into<A>>(val a: A, val b: B) {\n  method run(): A = this.b.into()\n}\n",
+    // self reference
+    "class Best<T: Cmp<T>>(val l: T, val r: T) {\n  method pick(): T = if this.l.cmp(this.r) >= 0 { this.l } else { this.r }\n}\n",
+    // three parameters chained forward
+    "class Chain<A: Into<B>, B: Into<C>, C>(val a: A, val b: B, val c: C) {\n  method end(): C = this.a.into().into()\n}\n",
+  ];
+  rng.shuffle(&mut classes);
+  let mut uses: Vec<&str> = vec![
+    "    let fwd = Fwd.init(Meters.init(2), Feet.init(0));\n    let fwdOut = fwd.run();\n    Process.println(\"fwd=\" :: Str.fromInt(fwdOut.v));\n",
+    "    let bwd = Bwd.init(Feet.init(1), Meters.init(3));\n    let bwdOut = bwd.run();\n    Process.println(\"bwd=\" :: Str.fromInt(bwdOut.v));\n",
+    "    let best = Best.init(Feet.init(4), Feet.init(9));\n    let bestOut = best.pick();\n    Process.println(\"best=\" :: Str.fromInt(bestOut.v));\n",
+    "    let chain = Chain.init(Meters.init(1), Feet.init(0), Inches.init(0));\n    let chainOut = chain.end();\n    Process.println(\"chain=\" :: Str.fromInt(chainOut.v));\n",
+    "    let viaFn = Main.conv(Meters.init(7), Feet.init(0));\n    Process.println(\"fn=\" :: Str.fromInt(viaFn.v));\n",
+    "    let viaFn2 = Main.convBack(Feet.init(0), Meters.init(8));\n    Process.println(\"fn2=\" :: Str.fromInt(viaFn2.v));\n",
+    "    let boxed = Box.init(Fwd.init(Meters.init(4), Feet.init(0)));\n    Process.println(\"boxed=\" :: Str.fromInt(boxed.item.run().v));\n",
+    "    let lam = (m: Meters) -> Fwd.init(m, Feet.init(0)).run();\n    Process.println(\"lam=\" :: Str.fromInt(lam(Meters.init(5)).v));\n",
+  ];
+  rng.shuffle(&mut uses);
+  let keep = 4 + rng.below(uses.len() - 3);
+  uses.truncate(keep);
+  format!(
+    "interface Into<T> {{\n  method into(): T\n}}\ninterface Cmp<T> {{\n  method cmp(other: T): int\n}}\nclass Box<T>(val item: T) {{}}\nclass Feet(val v: int) : Cmp<Feet>, Into<Inches> {{\n  method cmp(other: Feet): int = this.v - other.v\n  method into(): Inches = Inches.init(this.v * 12)\n}}\nclass Inches(val v: int) {{}}\nclass Meters(val v: int) : Into<Feet> {{\n  method into(): Feet = Feet.init(this.v * 3)\n}}\nclass Crate(val f: Feet) : Into<Box<Feet>> {{\n  method into(): Box<Feet> = Box.init(this.f)\n}}\n{}class Main {{\n  function <A: Into<B>, B> conv(a: A, unused: B): B = a.into()\n  function <A, B: Into<A>> convBack(unused: A, b: B): A = b.into()\n  function main(): unit = {{\n{}  }}\n}}\n",
+    classes.concat(),
+    uses.concat()
+  )
+}
